@@ -118,6 +118,25 @@ def der_mutations(blob: bytes, ci_end: int) -> t.List[t.Tuple[str, bytes]]:
             tr = copy.deepcopy(base)
             _get(tr, path)[2] = node[2] + b"\x00" * extra
             out.append((f"der/extend{extra}@{label}", _ser(tr) + tail))
+    # a primitive leaf replaced by a constructed (BER, X.690 8.7.3 style) string whose segments nest: depth 2, 50, 400, 1500, 5000.
+    # Every level is well-formed; a decoder that follows the nesting recursively must not run out of stack, one that rejects
+    # constructed strings (the unchanged one) is fine
+    from ref import der as _der
+
+    for path in _paths(base):
+        node = _get(base, path)
+        if node[1] is not None or (node[0][0] & 0x1F) not in (4, 0) or len(node[2]) < 4:  # OCTET STRING leaves and [0] IMPLICIT content
+            continue
+        label = "/".join(map(str, path)) + ":" + node[0].hex()
+        for depth in (2, 50, 400, 1500, 5000):
+            inner = b"\x04" + _der.enc_len(len(node[2])) + node[2]
+            for _ in range(depth - 1):
+                inner = b"\x24" + _der.enc_len(len(inner)) + inner
+            tr = copy.deepcopy(base)
+            nd = _get(tr, path)
+            nd[0] = bytes([nd[0][0] | 0x20]) + nd[0][1:]
+            nd[2] = inner
+            out.append((f"der/nested{depth}@{label}", _ser(tr) + tail))
     # raw length-octet corruption (parents not fixed)
     pos_list = []
 
@@ -157,6 +176,46 @@ FIELD_VALUES = {
 }
 
 
+def run_thread_reload(case) -> dict:
+    """[0, 1, ["threload", seed, policy]]: caller threads unprotect valid records (several L0 epochs, offline root key) while another
+    thread loads the same root key again into the shared cache; the outcome of every call must stay inside the allowed set
+    (here: success)."""
+    from checks import offline, plan as P
+    from ref import gkdi
+
+    _, seed, policy = case[2]
+    import random
+
+    r = random.Random(seed)
+    l0 = r.randrange(340, 470)
+    mk = lambda k: {"rk": 0, "sid": offline.SID_A, "pos": [l0 - k, r.randrange(32), r.randrange(32)], "mode": r.choice(("nonce", "pub")), "data": 6}  # noqa: E731
+    ops = [{"op": "load_key", "rk": 0}]
+    grp = [{"op": "unprotect", "fl": "thread", "group": 1, "net": "offline", "blob": mk(0)},
+           {"op": "load_key", "rk": 0, "fl": "thread", "group": 1},
+           {"op": "unprotect", "fl": "thread", "group": 1, "net": "offline", "blob": mk(1)}]
+    if seed % 2:
+        grp.append({"op": "load_key", "rk": 0, "fl": "thread", "group": 1})
+    r.shuffle(grp)
+    ops += grp + [{"op": "unprotect", "fl": "sync", "net": "offline", "blob": mk(2)}]
+    plan = {"seed": seed, "clock_ft": gkdi.interval_start_filetime(l0, 5, 5), "root_keys": [[9, offline.HASHES[seed % 4], offline.SECRETS[seed % 3]]],
+            "caller_sids": [offline.SID_A], "ctx": {"kind": "stub", "legs": 2, "sig": 16}, "ops": ops, "threads": policy}
+    tr = P.execute_plan(plan)
+    viol = None
+    for ot in tr.ops:
+        out = ot.outcome
+        if ot.op["op"] == "unprotect" and (out.kind != "ok" or out.value != ot.plaintext):
+            et, frame = drive.exc_sig(out)
+            viol = common.violation("C05", "error-type" if out.kind == "raise" else "does-not-end", "threads", et, frame, "reload-while-unprotecting",
+                                    f"op {ot.idx}: a valid record gave {out.brief()} {out.exc!r} while another thread loaded the same root key again")
+            break
+        if ot.op["op"] == "load_key" and out.kind != "ok":
+            viol = common.violation("C05", "error-type", "threads", drive.exc_sig(out)[0], drive.exc_sig(out)[1], "load-key", f"load_key failed: {out.exc!r}")
+            break
+    return {"viol": viol, "digest": tr.world.digest(), "key": common.key_hash(case), "sched_key": common.key_hash(tr.schedule) if tr.schedule else None,
+            "fired": {"thread_preemptions": tr.world.stats.get("tswitch", 0)}, "probes": {"reload_while_unprotecting": 1, "thread_overlap": tr.world.stats.get("toverlap", 0)},
+            "vtime_ns": 0, "_scripts": tr.thread_scripts}
+
+
 def gkdi_pack(hash_name: str) -> str:
     from ref import gkdi
 
@@ -171,7 +230,7 @@ class C05(common.Check):
             "0/1/2/true+-1/2^32-1); structure-aware DER mutants of every TLV node (emptied, dropped, duplicated, class/constructed bit "
             "flipped, high-tag form, leaf content shortened to every length / extended with consistent enclosing lengths, raw length octets: "
             "indefinite, 0, +-1, 2^32, 2^63, 2^64, non-minimal); whole-record garbage and PRNG byte "
-            "strings; well-formed records with long / odd domain and forest names; a cache on which an earlier load_key with unusable KDF parameters failed. Oracle: returns | needs-network | ValueError/NotImplementedError/NotEnougData/InvalidTag/InvalidUnwrap; <= 300 KDF "
+            "strings; well-formed records with long / odd domain and forest names; a cache on which an earlier load_key with unusable KDF parameters failed; valid records unprotected from caller threads while another thread loads the same root key again. Oracle: returns | needs-network | ValueError/NotImplementedError/NotEnougData/InvalidTag/InvalidUnwrap; <= 300 KDF "
             "calls; <= 150000 + 400*len traced lines; <= 5 s of CPU time (backstop for work outside the interpreter: regular expressions, big numbers); address-space growth during the call <= 64 MiB + 64*len (kernel high-water mark); for the field mutations and a quarter of the others the undamaged blob is unprotected afterwards on the same "
             "cache and must still return its plaintext (locks created by the library are simulated: an acquire nobody can satisfy is the "
             "outcome 'blocks'). Non-trivial = stored bytes differ from a valid blob; distinct = distinct (blob, mutation).")
@@ -180,7 +239,7 @@ class C05(common.Check):
                   "network": "simulated, none reachable; attempts classified at the seam"}
     assumptions = ["budgets are 4x (KDF) and >20x (lines) the maxima observed on valid input and affine in input length",
                    "PRNG byte strings are a weak generator and stated as such"]
-    required_fired = ("rot", "tear", "field", "der", "garbage", "outcome_needs-network", "outcome_raise", "outcome_ok", "valid_blob_after_damaged_one", "names", "bad_load_key")
+    required_fired = ("rot", "tear", "field", "der", "garbage", "outcome_needs-network", "outcome_raise", "outcome_ok", "valid_blob_after_damaged_one", "names", "bad_load_key", "reload_while_unprotecting", "thread_overlap")
 
     def exhaustive(self, tier):
         return tier == "thorough"
@@ -241,6 +300,12 @@ class C05(common.Check):
             for k, bad in enumerate(BAD):
                 for then_good in (False, True):
                     out.append([bi, 1, ["badload", dict(bad, then_good=then_good)]])
+        # valid records unprotected from caller threads while another thread loads the root key again
+        from checks import threadpure
+
+        for k in range(240 if tier == "quick" else 10000):
+            pol = {"mode": "marks", "q": (0.3, 0.6, 0.9)[k % 3], "p": (0.0, 0.02)[(k // 3) % 2]} if k % 2 else threadpure.policy_for(k // 2, seams=False)
+            out.append([0, 1, ["threload", rng.getrandbits(30), pol]])
         # garbage / PRNG byte strings
         n_rand = 3000 if tier == "quick" else 200000
         for i in range(n_rand):
@@ -259,6 +324,8 @@ class C05(common.Check):
 
     def run_case(self, case):
         bi, with_key, fault = case
+        if fault[0] == "threload":
+            return run_thread_reload(case)
         b = blobs.catalogue(next(iter(blobs._CAT)))[bi]
         bad_load = None
         if fault[0] == "names":
@@ -310,7 +377,7 @@ class C05(common.Check):
         seen = set()
         for c in cases:  # one case of every mutation kind, so that nothing is imported for the first time under the memory watch
             k = (c[1], c[2][0])
-            if k not in seen:
+            if k not in seen and c[2][0] != "threload":
                 seen.add(k)
                 try:
                     self.run_case(c)
@@ -319,6 +386,12 @@ class C05(common.Check):
 
     def shrink(self, case):
         bi, with_key, fault = case
+        if fault[0] == "threload":
+            from checks import threadpure
+
+            for cand in threadpure.shrinks(list(fault), 2, None, lambda f: {"_script": (run_thread_reload([0, 1, f]).get("_scripts") or {}).get("1")}):
+                yield [bi, with_key, cand]
+            return
         if fault[0] == "garbage":
             data = bytes.fromhex(fault[1])
             # classic ddmin on bytes: drop halves / chunks
